@@ -407,6 +407,28 @@ InSlot(pos, e) ==
     [] pos = "joinRight" -> <<Tab("T", <<Join(Id("inner"), Tab("B", <<Where(e)>>), <<Col("k")>>)>>)>>
     [] pos = "joinRightOn" -> <<Tab("T", <<Join(None, Tab("B", <<Join(None, Tab("C", <<>>), <<Col("k"), e>>)>>), <<Col("k")>>)>>)>>
 
+\* the operator that holds the slot, among other operators (Bound >= 1): a rule holds wherever the expression stands
+Contexts == {"alone", "afterCount", "afterTake", "afterSort", "afterTop", "afterProject", "afterSummarize", "afterJoin", "afterAs",
+             "afterWhere", "beforeCount", "beforeTake", "beforeSort", "beforeProject", "beforeSummarize", "beforeJoin", "beforeWhere"}
+ContextsFor(d) == IF Bound >= 1 /\ d \in {"bare", "deep"} THEN Contexts ELSE {"alone"}
+CtxOp(x) ==
+  CASE x \in {"afterCount", "beforeCount"} -> Count
+    [] x \in {"afterTake", "beforeTake"} -> Take(Num("5"))
+    [] x \in {"afterSort", "beforeSort"} -> Sort(<<TermD(Col("a"))>>)
+    [] x = "afterTop" -> Top(Num("2"), TermD(Col("a")))
+    [] x \in {"afterProject", "beforeProject"} -> Project(<<PCol("a", None), PCol("b", None), PCol("k", None), PCol("m", None)>>)
+    [] x \in {"afterSummarize", "beforeSummarize"} -> Summarize(<<ECol(Id("n"), Call("count", <<>>))>>, <<ECol(None, Col("a"))>>, FALSE)
+    [] x \in {"afterJoin", "beforeJoin"} -> Join(None, Tab("D", <<>>), <<Col("k")>>)
+    [] x = "afterAs" -> As("X")
+    [] x \in {"afterWhere", "beforeWhere"} -> Where(Bin("GT", Col("a"), Num("1")))
+IsAfter(x) == x \in {"afterCount", "afterTake", "afterSort", "afterTop", "afterProject", "afterSummarize", "afterJoin", "afterAs", "afterWhere"}
+\* items end in the tabular statement that holds the slot
+InContext(items, x) ==
+  IF x = "alone" THEN items
+  ELSE LET t == items[Len(items)]
+           ops == IF IsAfter(x) THEN <<CtxOp(x)>> \o t.ops ELSE t.ops \o <<CtxOp(x)>>
+       IN SubSeq(items, 1, Len(items) - 1) \o <<Tab(t.table.name, ops)>>
+
 LRVariants == {"left", "right", "bareleft", "quoted", "twin"}
 LRExpr(v) ==
   CASE v = "left" -> Bin("Eq", Qual("$left", "a"), Num("1"))
@@ -454,17 +476,17 @@ RowCountGood == {"10", "16", "neg", "col", "0"}
 PlantChoices(c) ==
   IF c = <<>> THEN {"arity", "leftright", "let", "queries", "joinkind", "rowcount"}
   ELSE CASE c[1] = "arity" -> (CASE Len(c) = 1 -> AllBuiltins [] Len(c) = 2 -> 0..4 [] Len(c) = 3 -> SlotPositions
-                                 [] Len(c) = 4 -> DepthsFor(c[4]) [] OTHER -> {})
+                                 [] Len(c) = 4 -> DepthsFor(c[4]) [] Len(c) = 5 -> ContextsFor(c[5]) [] OTHER -> {})
         [] c[1] = "leftright" -> (CASE Len(c) = 1 -> LRVariants [] Len(c) = 2 -> SlotPositions \ {"let"}
-                                    [] Len(c) = 3 -> Depths [] OTHER -> {})
+                                    [] Len(c) = 3 -> Depths [] Len(c) = 4 -> ContextsFor(c[4]) [] OTHER -> {})
         [] c[1] = "let" -> (IF Len(c) = 1 THEN LetVariants ELSE {})
         [] c[1] = "queries" -> (IF Len(c) = 1 THEN QueryVariants ELSE {})
         [] c[1] = "joinkind" -> (IF Len(c) = 1 THEN JoinKinds ELSE {})
         [] c[1] = "rowcount" -> (CASE Len(c) = 1 -> {"take", "top"} [] Len(c) = 2 -> RowCounts [] OTHER -> {})
 
 PlantItems(c) ==
-  CASE c[1] = "arity" -> InSlot(c[4], Canon(AtDepth(c[5], Call(c[2], ClosedArgs(c[3])))))
-    [] c[1] = "leftright" -> InSlot(c[3], Canon(AtDepth(c[4], LRExpr(c[2]))))
+  CASE c[1] = "arity" -> InContext(InSlot(c[4], Canon(AtDepth(c[5], Call(c[2], ClosedArgs(c[3]))))), c[6])
+    [] c[1] = "leftright" -> InContext(InSlot(c[3], Canon(AtDepth(c[4], LRExpr(c[2])))), c[5])
     [] c[1] = "let" -> LetItems(c[2])
     [] c[1] = "queries" -> QueryItems(c[2])
     [] c[1] = "joinkind" -> <<Tab("T", <<Join(IF c[2] = "none" THEN None ELSE Id(c[2]), Tab("B", <<>>), <<Col("k")>>)>>)>>
